@@ -19,6 +19,7 @@ def run():
         ("spec/legacy", "ParserTrimLegacy", "ParserTrimLegacy.cfg", "OffsetInv", "pre-F3 Parser::trim offset update"),
         ("spec/legacy", "CmpLegacy", "CmpLegacy.cfg", "Refines", "pre-F4 length-first slice ordering"),
         ("spec", "ArrayBuild", "legacy/ArrayBuild.unguarded.cfg", "AssumePre", "array macros without the i == len / is_full asserts"),
+        ("spec", "ArrayBuild", "legacy/ArrayBuild.aliased.cfg", "AssumePre", "pre-F12 from_fn!: a `ref mut` closure parameter aliases the loop counter"),
         ("spec/mc", "MC_Destructure", "../legacy/Destructure.NoDropGuard.cfg", "LedgerOK", "destructure! without the Drop assertion"),
         ("spec/mc", "MC_Destructure", "../legacy/Destructure.NoTypeGuard.cfg", "LedgerOK", "destructure! without the reference assertion"),
         ("spec/mc", "MC_Destructure", "../legacy/Destructure.NoFieldGuard.cfg", "LedgerOK", "destructure! without the exhaustive field pattern"),
